@@ -35,6 +35,7 @@ INITIALS = {
     "none": None,
     "populated": {"uri": b"/base", "params": {b"p0": b"v0"}, "headers": {b"User-Agent": b"UA/1.0", b"Host": b"h.example"}, "body": b""},
     "populated-nouri": {"uri": b"", "params": {b"p0": b"v0"}, "headers": {b"User-Agent": b"UA/1.0"}, "body": b""},
+    "populated-body": {"uri": b"/b", "params": {}, "headers": {b"Content-Type": b"x"}, "body": b"INITIAL-BODY"},
 }
 
 
@@ -94,7 +95,7 @@ def run_client_case(program, data, mask, init_name):
 
     initial = INITIALS[init_name]
     kinds = [arg for op, arg in program if op == "BUILD"]
-    c2d = {k: data for k in kinds}
+    c2d = {k: (data.get(k) if isinstance(data, dict) else data) for k in kinds}
     has_uri = any(op == "URI_APPEND" for op, _ in program)
     base_uri = initial["uri"] if initial else b""
     key = mask.to_bytes(4, "big")
@@ -113,6 +114,7 @@ def run_client_case(program, data, mask, init_name):
         req0 = mk_request(c2, initial)
         try:
             out = tr.transform(c2.C2Data(**c2d), request=req0)
+            c2d = {k: (v or b"") for k, v in c2d.items()}  # an unset field is sent as empty data
         except Exception as e:  # noqa
             return "C04/transform/exception", "HttpRequest", f"{type(e).__name__}: {e}"
     finally:
@@ -198,7 +200,8 @@ def explore_program(acc, program, seed, inits=("none", "populated"), datas=None)
                 bad = run_client_case(program, data, mask, init)
                 acc.case((tuple(program), di, mask, init), nontrivial=bool(data) or nenc > 0, outcome=bad[0] if bad else (len(data), nenc))
                 if bad:
-                    acc.fail(bad[0], {"kind": "client", "program": to_js(program), "data": data.hex(), "mask": mask, "initial": init}, bad[1], bad[2])
+                    dj = {k: (None if v is None else v.hex()) for k, v in data.items()} if isinstance(data, dict) else data.hex()
+                    acc.fail(bad[0], {"kind": "client", "program": to_js(program), "data": dj, "mask": mask, "initial": init}, bad[1], bad[2])
 
 
 def chunk_single(chunk, acc):
@@ -216,6 +219,8 @@ def chunk_single(chunk, acc):
             program = [("BUILD", kind)] + list(seq) + [term]
             acc.states += 1
             explore_program(acc, program, acc.seed)
+            if len(seq) <= 1:
+                explore_program(acc, program, acc.seed, inits=("populated-body",), datas=payloads(acc.seed)[:4])
     acc.sample({"program": to_js([("BUILD", "metadata")] + list(seqs[-1]) + [term]), "payload_lengths": [len(p) for p in payloads(acc.seed)], "masks": [f"{m:08x}" for m in MASKS]})
 
 
@@ -236,6 +241,10 @@ def chunk_multi(chunk, acc):
                     program = [("BUILD", ka)] + list(ea) + [ta, ("BUILD", kb)] + list(eb) + [tb]
                     acc.states += 1
                     explore_program(acc, program, acc.seed, inits=("none",), datas=datas[1:3])
+                    if len(ea) + len(eb) <= 1:
+                        # different payloads per block, including an empty / unset later or earlier block
+                        per = [{ka: b"1234", kb: b""}, {ka: b"1234", kb: None}, {ka: b"", kb: b"OUT"}, {ka: b"id-7", kb: bytes(lcg(17, acc.seed))}]
+                        explore_program(acc, program, acc.seed, inits=("none",), datas=per)
     for ta, tb, tc in itertools.permutations(terms[:3] + terms[4:], 3):
         program = [("BUILD", "metadata"), ("BASE64", None), ta, ("BUILD", "id"), ("NETBIOS", None), tb, ("BUILD", "output"), ("MASK", None), tc]
         acc.states += 1
@@ -358,7 +367,9 @@ def run_chunk(chunk, acc):
 
 def replay(case):
     if case["kind"] == "client":
-        bad = run_client_case(from_js(case["program"]), bytes.fromhex(case["data"]), case["mask"], case["initial"])
+        d = case["data"]
+        d = {k: (None if v is None else bytes.fromhex(v)) for k, v in d.items()} if isinstance(d, dict) else bytes.fromhex(d)
+        bad = run_client_case(from_js(case["program"]), d, case["mask"], case["initial"])
     elif case["kind"] == "server":
         steps = [(op, arg) for op, arg in case["recover"]]
         bad = run_server_case(steps, bytes.fromhex(case["data"]), case["mask"], case["filler"])
